@@ -265,14 +265,17 @@ func genRegSample(rg *Rng) regSample {
 	cands := []int{12, 13, 20, 99, -1, -7, 1 << 33, 255, 1000}
 	var s regSample
 	used := map[int]bool{}
-	for len(s.vals) < 6 {
+	for len(s.vals) < 7 {
 		v := cands[rg.Intn(len(cands))] + rg.Intn(3)
+		if n := len(s.vals); n == 1 || n == 4 { // the levels treated as Info and as Trace have NEGATIVE values (below every built-in one)
+			v = []int{-1, -3, -7, -100, -1 << 40}[rg.Intn(5)] - rg.Intn(2)
+		}
 		if used[v] || (v >= 0 && v < 12) {
 			continue
 		}
 		used[v] = true
 		s.vals = append(s.vals, v)
-		switch len(s.treat) { // every sample has the boundary cases: treated as Panic (0), as Info, none, as Off/Always
+		switch len(s.treat) { // every sample has the boundary cases: treated as Panic (0), as Info, none, as Off/Always, as Trace
 		case 0:
 			s.treat = append(s.treat, 0)
 		case 1:
@@ -281,6 +284,8 @@ func genRegSample(rg *Rng) regSample {
 			s.treat = append(s.treat, -1)
 		case 3:
 			s.treat = append(s.treat, []int{7, 8}[rg.Intn(2)])
+		case 4:
+			s.treat = append(s.treat, 6)
 		default:
 			if rg.Bool() {
 				s.treat = append(s.treat, []int{0, 2, 3, 4, 5, 6, 7, 8, 11}[rg.Intn(9)])
